@@ -305,13 +305,13 @@ def overlapVec (out inp : Vec) (zoom offset : Rat) (assign : Bool) : Vec :=
   else if zoom ≥ 1 then
     let x2 := out.lo
     let x1 := (((x2 : Rat) - 1 / 2) / zoom + offset + 1 / 2).floor
-    let d := zoom * ((x1 : Rat) - offset + 1 / 2) - ((x2 : Rat) + 1 / 2)
+    let d := zoom * (fl32 ((x1 : Rat) - offset) + 1 / 2) - ((x2 : Rat) + 1 / 2)   -- `x1 - offset` is an `int - float` = float operation
     overlapVecShrink zoom assign inp (out.vals.length + 1) x2 x1 d out
   else
     let inv := fl32 (1 / zoom)
     let x2 := out.lo
     let x1 := (((x2 : Rat) - 1 / 2) * inv + offset + 1 / 2).floor
-    let d := ((x1 : Rat) - offset + 1 / 2) - ((x2 : Rat) + 1 / 2) * inv
+    let d := (fl32 ((x1 : Rat) - offset) + 1 / 2) - ((x2 : Rat) + 1 / 2) * inv
     let dl := d - 1 + inv
     let out := if dl < 0 ∧ x1 ≥ inp.lo ∧ x1 ≤ inp.hi then out.set x2 (inp.get x1 * dl) else if assign then out.set x2 0 else out
     let (out, x2) := overlapVecStretch inv assign inp ((inp.hi - x1 + 2).toNat) x1 x2 d out
